@@ -1,4 +1,250 @@
-//! Generator-side operations (json_shape_build); filled in with the Gen model.
-pub fn run(_a: &[&str]) -> String {
-    "ERR BadOp".into()
+//! Generator-side operations: run the real `json_shape_build` code (hooks + `compile_json`)
+//! and the real `convert_case` / `checksum` crates, printing the canonical lines that
+//! `ocaml/genops.ml` prints for the model.
+//!
+//! `json_shape_build` links crates.io `json_shape 0.5.1` (here `json_shape_051`), so shapes
+//! written in the compact syntax are converted to that twin type.
+use std::collections::{BTreeMap, BTreeSet};
+use std::fmt::Write as _;
+use std::io::Write as _;
+use std::path::{Path, PathBuf};
+use std::process::{Command, Stdio};
+use std::sync::atomic::{AtomicUsize, Ordering};
+
+use convert_case::{Case, Casing};
+use json_shape::JsonShape;
+use json_shape_051::JsonShape as Shape051;
+
+use crate::{hex, parse_shape, shape_str, unhex};
+
+/// workspace type -> 0.5.1 type (same constructors and fields)
+pub fn to051(s: &JsonShape) -> Shape051 {
+    match s {
+        JsonShape::Null => Shape051::Null,
+        JsonShape::Bool { optional } => Shape051::Bool { optional: *optional },
+        JsonShape::Number { optional } => Shape051::Number { optional: *optional },
+        JsonShape::String { optional } => Shape051::String { optional: *optional },
+        JsonShape::Array { r#type, optional } => Shape051::Array {
+            r#type: Box::new(to051(r#type)),
+            optional: *optional,
+        },
+        JsonShape::Object { content, optional } => Shape051::Object {
+            content: content.iter().map(|(k, v)| (k.clone(), to051(v))).collect::<BTreeMap<_, _>>(),
+            optional: *optional,
+        },
+        JsonShape::OneOf { variants, optional } => Shape051::OneOf {
+            variants: variants.iter().map(to051).collect::<BTreeSet<_>>(),
+            optional: *optional,
+        },
+        JsonShape::Tuple { elements, optional } => Shape051::Tuple {
+            elements: elements.iter().map(to051).collect(),
+            optional: *optional,
+        },
+    }
+}
+
+/// 0.5.1 type -> workspace type (for printing in the compact syntax)
+pub fn from051(s: &Shape051) -> JsonShape {
+    match s {
+        Shape051::Null => JsonShape::Null,
+        Shape051::Bool { optional } => JsonShape::Bool { optional: *optional },
+        Shape051::Number { optional } => JsonShape::Number { optional: *optional },
+        Shape051::String { optional } => JsonShape::String { optional: *optional },
+        Shape051::Array { r#type, optional } => JsonShape::Array {
+            r#type: Box::new(from051(r#type)),
+            optional: *optional,
+        },
+        Shape051::Object { content, optional } => JsonShape::Object {
+            content: content.iter().map(|(k, v)| (k.clone(), from051(v))).collect::<BTreeMap<_, _>>(),
+            optional: *optional,
+        },
+        Shape051::OneOf { variants, optional } => JsonShape::OneOf {
+            variants: variants.iter().map(from051).collect::<BTreeSet<_>>(),
+            optional: *optional,
+        },
+        Shape051::Tuple { elements, optional } => JsonShape::Tuple {
+            elements: elements.iter().map(from051).collect(),
+            optional: *optional,
+        },
+    }
+}
+
+fn shape051(arg: &str) -> Shape051 {
+    to051(&parse_shape(arg))
+}
+
+fn text(s: &str) -> String {
+    format!("TEXT {}", hex(s.as_bytes()))
+}
+
+fn arg_text(s: &str) -> String {
+    if s == "-" {
+        String::new()
+    } else {
+        String::from_utf8(unhex(s)).expect("text args must be UTF-8")
+    }
+}
+
+fn cache_dir() -> PathBuf {
+    // <root>/.cache/harness-target/release/vharness
+    let exe = std::env::current_exe().unwrap();
+    exe.parent().unwrap().parent().unwrap().parent().unwrap().to_path_buf()
+}
+
+static COUNTER: AtomicUsize = AtomicUsize::new(0);
+
+fn list_files(root: &Path, dir: &Path, out: &mut Vec<(String, Vec<u8>)>) {
+    let Ok(rd) = std::fs::read_dir(dir) else { return };
+    let mut entries: Vec<_> = rd.filter_map(Result::ok).collect();
+    entries.sort_by_key(std::fs::DirEntry::file_name);
+    for e in entries {
+        let p = e.path();
+        if p.is_dir() {
+            list_files(root, &p, out);
+        } else {
+            let rel = p.strip_prefix(root).unwrap().to_string_lossy().to_string();
+            out.push((rel, std::fs::read(&p).unwrap_or_default()));
+        }
+    }
+}
+
+/// `compile <hexname> <outdir: - | hex of path relative to the sandbox> <src>...`
+/// with src = `T<hextext>` (file with that content) | `M` (missing) | `D` (a directory).
+/// Runs in a child process (compile_json prints to stdout, reads OUT_DIR and the cwd).
+fn compile_parent(a: &[&str]) -> String {
+    let n = COUNTER.fetch_add(1, Ordering::SeqCst);
+    let root = cache_dir().join("gen-tmp").join(format!("{}-{}", std::process::id(), n));
+    let _ = std::fs::remove_dir_all(&root);
+    std::fs::create_dir_all(root.join("src")).unwrap();
+    std::fs::create_dir_all(root.join("cwd")).unwrap();
+    let mut line = format!("gen_compile_child\t{}", hex(root.to_string_lossy().as_bytes()));
+    for x in &a[1..] {
+        line.push('\t');
+        line.push_str(x);
+    }
+    line.push('\n');
+    let mut child = Command::new(std::env::current_exe().unwrap())
+        .stdin(Stdio::piped())
+        .stdout(Stdio::piped())
+        .stderr(Stdio::null())
+        .env_remove("OUT_DIR")
+        .spawn()
+        .unwrap();
+    child.stdin.take().unwrap().write_all(line.as_bytes()).unwrap();
+    let out = child.wait_with_output().unwrap();
+    let stdout = String::from_utf8_lossy(&out.stdout).to_string();
+    let _ = std::fs::remove_dir_all(&root);
+    let mut prints = Vec::new();
+    let mut result = None;
+    for l in stdout.lines() {
+        if let Some(p) = l.strip_prefix("cargo:") {
+            prints.push(format!("cargo:{p}"));
+        } else if l.starts_with("RET ") || l == "PANIC" {
+            result = Some(l.to_string());
+        }
+    }
+    let Some(result) = result else {
+        return format!("ERR ChildFailed rc={:?}", out.status.code());
+    };
+    if result == "PANIC" {
+        return "RET PANIC".into();
+    }
+    // prints of the first of the two in-process runs only
+    let half = prints.len() / 2;
+    let mut s = result;
+    s.push_str(" PRINTS");
+    let rs = root.to_string_lossy().to_string();
+    for p in &prints[..half] {
+        let _ = write!(s, " {}", hex(p.replace(&rs, "$R").as_bytes()));
+    }
+    s
+}
+
+fn compile_child(a: &[&str]) -> String {
+    let root = PathBuf::from(arg_text(a[1]));
+    let name: &'static str = Box::leak(arg_text(a[2]).into_boxed_str());
+    let cwd = root.join("cwd");
+    std::env::set_current_dir(&cwd).unwrap();
+    let out_dir = if a[3] == "-" {
+        None
+    } else {
+        let rel = arg_text(a[3]);
+        let d = format!("{}/{}", root.to_string_lossy(), rel);
+        std::fs::create_dir_all(&d).unwrap();
+        Some(d)
+    };
+    // SAFETY: single-threaded child process
+    unsafe {
+        match &out_dir {
+            Some(d) => std::env::set_var("OUT_DIR", d),
+            None => std::env::remove_var("OUT_DIR"),
+        }
+    }
+    let mut paths = Vec::new();
+    for (i, spec) in a[4..].iter().enumerate() {
+        let p = root.join("src").join(format!("s{i}.json"));
+        match spec.as_bytes().first() {
+            Some(b'T') => std::fs::write(&p, unhex(&spec[1..])).unwrap(),
+            Some(b'D') => std::fs::create_dir_all(&p).unwrap(),
+            _ => {}
+        }
+        paths.push(p);
+    }
+    let r1 = json_shape_build::compile_json(name, &paths);
+    let mut files1 = Vec::new();
+    list_files(&root, &root, &mut files1);
+    let r2 = json_shape_build::compile_json(name, &paths);
+    let mut files2 = Vec::new();
+    list_files(&root, &root, &mut files2);
+    let same = match (&r1, &r2) {
+        (Ok(x), Ok(y)) => x == y,
+        (Err(x), Err(y)) => x.kind() == y.kind(),
+        _ => false,
+    } && files1 == files2;
+    let mut s = match &r1 {
+        Ok(t) => format!("RET OK {}", hex(t.as_bytes())),
+        Err(e) => format!("RET ERR {:?}", e.kind()),
+    };
+    let _ = write!(s, " DET {}", u8::from(same));
+    s.push_str(" FILES");
+    for (rel, bytes) in &files1 {
+        if rel.starts_with("src/") {
+            continue;
+        }
+        let _ = write!(s, " {}:{}", hex(rel.as_bytes()), hex(bytes));
+    }
+    s
+}
+
+pub fn run(a: &[&str]) -> String {
+    match a[0] {
+        "gen_render" => text(&json_shape_build::verif_hooks::render(&shape051(a[1]))),
+        "gen_name" => text(&json_shape_build::verif_hooks::shape_name(&shape051(a[1]))),
+        "gen_repr" => text(&json_shape_build::verif_hooks::shape_representation(&shape051(a[1]))),
+        "gen_case" => {
+            let x = arg_text(a[2]);
+            match a[1] {
+                "snake" => text(&x.to_case(Case::Snake)),
+                "pascal" => text(&x.to_case(Case::Pascal)),
+                _ => "ERR BadOp".into(),
+            }
+        }
+        "gen_crc" => {
+            let mut crc = checksum::crc32::Crc32::new();
+            crc.update(&unhex(if a[1] == "-" { "" } else { a[1] }));
+            crc.finalize();
+            text(&format!("{:X}", crc.getsum()))
+        }
+        // json_shape 0.5.1 inference on texts: what compile_json feeds the generator
+        "gen_infer051" => {
+            let v: Vec<String> = a[1..].iter().map(|s| arg_text(s)).collect();
+            match Shape051::from_sources(&v) {
+                Ok(s) => format!("OK {}", shape_str(&from051(&s))),
+                Err(_) => "ERR Infer".into(),
+            }
+        }
+        "compile" => compile_parent(a),
+        "gen_compile_child" => compile_child(a),
+        _ => "ERR BadOp".into(),
+    }
 }
